@@ -1,4 +1,5 @@
 CONSTANTS
+  ReadFaultGivesUp = TRUE
   Node = {1, 2, 3, 4, 5}
   Db = {"d1", "d2"}
   MaxShards = 6
